@@ -208,6 +208,8 @@ Fixpoint ideal (x : node) : res value :=
   | NNestedCatch y | NThread y => match tr (ideal y) with ROk v => ROk v | _ => ROk VNone end
   | NFail => RErr
   | NPanic => RPanic
+  | NLeak _ => ROk VNone                       (* what the foreign serializer saw is not part of the value *)
+  | NFlatten _ => RErr                         (* flattening a template value is refused (documented) *)
   end
 with ideals (l : nodes) : res (list value) :=
   match l with
@@ -222,3 +224,12 @@ with ideals (l : nodes) : res (list value) :=
 
 (* Value::from(Serde(y)) *)
 Definition ideal_convert (y : node) : res value := tr (ideal y).
+
+(* a JSON array text: "[" e1 sep e2 sep ... en "]" *)
+Fixpoint intercalate (sep : str) (elems : list str) : str :=
+  match elems with
+  | [] => []
+  | [e] => e
+  | e :: r => e ++ sep ++ intercalate sep r
+  end.
+Definition array_text (sep : str) (elems : list str) : str := 91 :: intercalate sep elems ++ [93].
